@@ -53,6 +53,9 @@ func runLineProbe(ti, to jsonline.Template, line string, sink *scalarSink) concP
 	return pr
 }
 
+// an input row shared (read-only) by all goroutines of the current case
+var sharedInput jsonline.Row
+
 // the other operations of the property, summarised as one text
 func runAPIProgram(ti, to jsonline.Template, lines []string) string {
 	var sb strings.Builder
@@ -60,6 +63,16 @@ func runAPIProgram(ti, to jsonline.Template, lines []string) string {
 		e := ti.CreateRowEmpty()
 		sb.WriteString(gRow(e, nil) + "|" + e.String() + "\n")
 		// a write below the top level of a row of one's own: the nested row of a declared sub-row belongs to the row
+		// rows created from one input row shared by every goroutine are the creator's own
+		if sharedInput != nil {
+			for k := range lines {
+				if own, err := to.CreateRow(sharedInput); err == nil && own != nil {
+					_ = own.ImportAtKey("x", len(lines)*100+k)
+					_ = own.ImportAtKey("undeclared", fmt.Sprint(len(lines[k])))
+					sb.WriteString(own.String() + "\n")
+				}
+			}
+		}
 		for k, l := range lines {
 			own := ti.CreateRowEmpty()
 			_ = own.ImportAtPath("sub.q", len(l)*7+k)
@@ -145,7 +158,7 @@ func concStream(seed uint64, tier string, outDir string, props map[string]bool, 
 				doc := genTemplDoc(r, inCols, 0)
 				if r.bool() {
 					setMember(doc, "dt", &jnode{kind: 's', s: []string{"2021-09-24", "1999-12-31", "2020-02-29"}[r.intn(3)]})
-					setMember(doc, "ts", &jnode{kind: 's', s: []string{"2021-09-24T10:11:12Z", "2021-10-31T02:30:00.5+02:00"}[r.intn(2)]})
+					setMember(doc, "ts", &jnode{kind: 's', s: []string{"2021-09-24T10:11:12Z", "2021-10-31T02:30:00.5+02:00", "2021-09-24 10:11:12", "24/09/2021"}[r.intn(4)]})
 					setMember(doc, "t2", &jnode{kind: 'n', s: []string{"1632478272", "0", "253402214400"}[r.intn(3)]})
 				}
 				programs[g] = append(programs[g], c.lineOf(doc))
@@ -153,6 +166,8 @@ func concStream(seed uint64, tier string, outDir string, props map[string]bool, 
 		}
 		ctx := map[string]interface{}{"stream": "conc", "input_template": descString(inCols), "output_template": descString(outCols), "goroutines": G}
 		noteCase("conc", fmt.Sprintf("%d goroutines sharing input template %s output template %s; programs %q", G, descString(inCols), descString(outCols), programs))
+		sharedInput = jsonline.NewRow()
+		_ = sharedInput.UnmarshalJSON([]byte(`{"x":1,"undeclared":"u","bin":"AQI=","k":[1,{"z":2}]}`))
 		protoBefore := gRow(ti.CreateRowEmpty(), nil) + "|" + gRow(to.CreateRowEmpty(), nil)
 		// sequential reference
 		refProbes := make([][]concProbe, G)
